@@ -66,6 +66,7 @@ TXT = {
     "code3": r"{V^{kl}_{cd}} {t1^{ac}_{ik}} {t1^{bd}_{jl}} - \frac{{V^{kl}_{ij}} {t1^{ab}_{kl}}}{2} + {f^{a}_{c}} {t1^{bc}_{ij}}",  # noqa: E501
     "pairs": r"{Y^{a}_{i}} {V^{ja}_{ce}} {X^{b}_{j}} {V^{ib}_{cd}} - \frac{{Y^{a}_{i}} {V^{ja}_{cd}} {X^{b}_{j}} {V^{ib}_{ce}}}{2}",  # noqa: E501
     "retarget": r"{f^{j}_{k}} {Y^{a}_{j}} {X^{a}_{k}} + {f^{k}_{j}} {Y^{a}_{k}} {X^{a}_{j}} + {V^{jk}_{bc}} {t1^{bc}_{jk}} {d^{a}_{a}}",  # noqa: E501
+    "dterm": r"{d^{i}_{a}} {t2^{a}_{i}} + \frac{{d^{i}_{j}} {t1^{ab}_{jk}} {t1cc^{ab}_{ik}}}{2} - {d^{a}_{b}} {t2^{b}_{i}} {t2cc^{a}_{i}}",  # noqa: E501
     "wick3": r"{a^\dagger_{i}} {a_{a}} {f^{p}_{q}} {a^\dagger_{p}} {a_{q}} {t1^{bc}_{jk}} {a^\dagger_{b}} {a^\dagger_{c}} {a_{k}} {a_{j}}",  # noqa: E501
 }
 
@@ -502,6 +503,23 @@ def _(w):
 def _(w):
     from adcgen import derivative
     res = derivative(imp(w, "deriv", targets=""), w.names["gs_amplitude"] + "1cc")
+    return {str(k): v for k, v in res.items()}
+
+
+for _wrt in ("2", "1cc", "2cc"):
+    def _mk(wrt):
+        @tmpl(f"expr.derivative(dterm,t{wrt})", "expr", None, cost=1)
+        def _(w):
+            from adcgen import derivative
+            res = derivative(imp(w, "dterm", targets=""), w.names["gs_amplitude"] + wrt)
+            return {str(k): v for k, v in res.items()}
+    _mk(_wrt)
+
+
+@tmpl("expr.sort.by_tensor_block(dterm,d)", "expr", None)
+def _(w):
+    from adcgen import sort
+    res = sort.by_tensor_block(imp(w, "dterm", targets=""), w.names["operator"])
     return {str(k): v for k, v in res.items()}
 
 
